@@ -388,20 +388,38 @@ class Runner:
         path = urllib.request.url2pathname(self.main[len("file://"):])
         with open(path, encoding="utf-8") as f:
             original = f.read()
+        # ... and one of the files it includes, when there is one
+        inc = None
+        for line in original.split("\n"):
+            if line.strip().startswith("%include ") and "$" not in line:
+                cand = os.path.join(os.path.dirname(path), line.strip()[len("%include "):].strip())
+                if os.path.isfile(cand) and not os.path.samefile(cand, path):
+                    inc = (line.strip(), cand)
+                    break
+        inc_original = None
+        if inc:
+            with open(inc[1], encoding="utf-8") as f:
+                inc_original = f.read()
         try:
             with open(path, "w", encoding="utf-8", newline="\n") as f:
-                f.write("top zcv-rewritten\n")
+                f.write((inc[0] + "\n" if inc else "") + "top zcv-rewritten\n")
+            if inc:
+                with open(inc[1], "w", encoding="utf-8", newline="\n") as f:
+                    f.write("top zcv-included\n")
             try:
                 cfg, _h = loader.loadURL(self.main)
                 got = list(cfg.top)
             except Exception as e:  # noqa
                 return "reload of the rewritten file raised %r" % (e,)
-            if got != ["zcv-rewritten"]:
-                return "rewritten file gave top=%r" % (got,)
+            if got != (["zcv-included"] if inc else []) + ["zcv-rewritten"]:
+                return "rewritten file%s gave top=%r" % (" and rewritten include" if inc else "", got)
             return None
         finally:
             with open(path, "w", encoding="utf-8", newline="\n") as f:
                 f.write(original)
+            if inc:
+                with open(inc[1], "w", encoding="utf-8", newline="\n") as f:
+                    f.write(inc_original)
 
     def probe(self):
         """After a (failed) load: a text that only USES the name the scenario defines, through the
